@@ -19,10 +19,15 @@ def main():
         c = sys.argv[sys.argv.index("--checks") + 1]
         checks = [f"C{i:02d}" for i in range(1, 20)] if c == "all" else c.split(",")
     wt, out = f"/tmp/wt/{pid}", f"/tmp/wt/{pid}-out"
+    if "--wt" in sys.argv:
+        wt = sys.argv[sys.argv.index("--wt") + 1]       # evaluate in another scratch worktree (the agents may be using <ID>'s)
+    only = None
+    if "--only" in sys.argv:
+        only = [int(x) for x in sys.argv[sys.argv.index("--only") + 1].split(",")]
     env = dict(os.environ, CARGO_NET_OFFLINE="true")
-    for k in (1, 2, 3, 4, 5):
+    for k in range(1, 10):
         diff = os.path.join(out, f"m{k}.diff")
-        if not os.path.exists(diff):
+        if not os.path.exists(diff) or (only and k not in only):
             continue
         name = f"{pid}-m{k}"
         meta = {"id": name, "property": pid, "source": "independent sub-agent given only the property text and a scratch worktree"}
